@@ -91,7 +91,7 @@ def reach_under(g, val):
 
 # (row id, file, function, valuation, producers (callee names that create results), description)
 GUARDS = [
-    ("sorted-species", MOLECULE, "check_input", {"row_ok.all()": False}, (),
+    ("sorted-species", MOLECULE, "check_input", {"@rows_sorted": False}, (),
      "a species row that is not non-increasing"),
     ("rhf-odd-electrons", BASICS, "Parser.forward", {"self.uhf": False, "@odd_electrons": True}, (),
      "odd electron count with a restricted reference"),
@@ -193,6 +193,19 @@ def _resolve_placeholders(mod, func, val):
             if found is None:
                 return None, "no test of the form (nocc > norb...).any()"
             out[norm(found)] = v
+        elif k == "@rows_sorted":
+            # `<N>.all()` where N = <per-pair comparison>.all(dim=1): every row is sorted
+            found = None
+            fdefs = {}
+            for st in ast.walk(func):
+                if isinstance(st, ast.Assign) and len(st.targets) == 1 and isinstance(st.targets[0], ast.Name):
+                    fdefs.setdefault(st.targets[0].id, []).append(st.value)
+            for nm, vs in fdefs.items():
+                if len(vs) == 1 and isinstance(vs[0], ast.Call) and callee_attr(vs[0]) == "all" and (vs[0].args or vs[0].keywords):
+                    found = nm
+            if found is None:
+                return None, "no per-row sortedness flag (<cmp>.all(dim=1)) is computed"
+            out[f"{found}.all()"] = v
         elif k == "@odd_electrons":
             # any spelling of "some molecule has an odd electron count": (n_charge % 2 == 1).any(), (n_charge % 2 != 0).any(), torch.any(...)
             found = None
@@ -315,9 +328,10 @@ def run(ctx):
             defs.setdefault(st.targets[0].id, []).append(st)
     ok_ = True
     msg = ""
-    row_ok = defs.get("row_ok", [])
+    row_name = [nm for nm, sts in defs.items() if len(sts) == 1 and isinstance(sts[0].value, ast.Call) and callee_attr(sts[0].value) == "all" and (sts[0].value.args or sts[0].value.keywords)]
+    row_ok = defs.get(row_name[0], []) if len(row_name) == 1 else []
     if len(row_ok) != 1:
-        ok_, msg = False, "row_ok is not defined exactly once"
+        ok_, msg = False, "the per-row sortedness flag (<cmp>.all(dim=1)) is not defined exactly once"
     else:
         v = row_ok[0].value
         good = isinstance(v, ast.Call) and callee_attr(v) == "all" and isinstance(v.func, ast.Attribute)
